@@ -55,6 +55,14 @@ class _Ret(Exception):
         self.v = v
 
 
+class _Break(Exception):
+    pass
+
+
+class _Continue(Exception):
+    pass
+
+
 NUMERIC = ('int', 'float', 'bool', 'blank')
 
 
@@ -295,7 +303,48 @@ class Evaluator:
             return
         if isinstance(st, (ast.Import, ast.ImportFrom)):
             return
+        if isinstance(st, ast.FunctionDef) and not st.decorator_list:
+            env[st.name] = AV('func', val=('closure', st, env))
+            return
+        if isinstance(st, ast.Break):
+            raise _Break()
+        if isinstance(st, ast.Continue):
+            raise _Continue()
+        if isinstance(st, ast.For) and isinstance(st.target, ast.Name):
+            it = self.ev(st.iter, env)
+            if it.kind not in ('list', 'tuple') or it.items is None:
+                raise Unknown('loop over a collection of unknown contents')
+            for x in it.items:
+                env[st.target.id] = x
+                try:
+                    self.exec_block(st.body, env)
+                except _Continue:
+                    continue
+                except _Break:
+                    break
+            else:
+                self.exec_block(st.orelse, env)
+            return
         raise Unknown(f'statement {type(st).__name__}')
+
+    def call_closure(self, clo, args: list) -> AV:
+        _, fn, outer = clo
+        a = fn.args
+        if a.vararg or a.kwarg or a.kwonlyargs or a.posonlyargs or a.defaults or len(a.args) != len(args):
+            raise Unknown(f'call of the local function {fn.name}')
+        if self.depth >= self.max_depth:
+            raise Unknown(f'inlining depth exceeded at {fn.name}')
+        env = dict(outer)
+        for p, v in zip(a.args, args):
+            env[p.arg] = v
+        self.depth += 1
+        try:
+            self.exec_block(fn.body, env)
+            return AV('none')
+        except _Ret as r:
+            return r.v
+        finally:
+            self.depth -= 1
 
     def match_pattern(self, p, subj: AV, env) -> bool:
         if isinstance(p, ast.MatchValue):
@@ -310,6 +359,8 @@ class Evaluator:
             return True
         if isinstance(p, ast.MatchOr):
             return any(self.match_pattern(q, subj, env) for q in p.patterns)
+        if isinstance(p, ast.MatchClass) and not p.patterns and not p.kwd_patterns:
+            return any(is_instance(subj, c) for c in self._class_names(p.cls, env))
         raise Unknown(f'pattern {type(p).__name__}')
 
     # ---- expressions -------------------------------------------------------------------------------
@@ -414,6 +465,12 @@ class Evaluator:
     def call(self, node: ast.Call, env) -> AV:
         f = node.func
         name = f.id if isinstance(f, ast.Name) else None
+        if name is not None and name in env and env[name].kind == 'func' and isinstance(env[name].val, tuple) and \
+                env[name].val[0] == 'closure':
+            return self.call_closure(env[name].val, [self.ev(a, env) for a in node.args])
+        if name is not None and name in env and env[name].kind == 'other' and isinstance(env[name].val, tuple) and \
+                env[name].val[0] == 'name' and env[name].val[1] in ('int', 'float', 'str', 'bool'):
+            name = env[name].val[1]                       # a builtin passed around as a value
         if name is not None and name in env and env[name].kind == 'func':
             hook = self.hooks.get('<call:' + name + '>') or self.hooks.get('<call>')
             if hook is None:
